@@ -165,9 +165,29 @@ func normReq(r *t_api.Request) string {
 			}
 		}
 	}
+	markEmptyKeys(v)
 	pr := pruneAny(v)
 	b, _ = json.Marshal(pr)
 	return string(b)
+}
+
+// markEmptyKeys: an idempotency key that is present but empty is not the same request as one without a key (an absent
+// key matches nothing, an empty one matches an empty one), so it must survive the pruning of zero values below
+func markEmptyKeys(v any) {
+	switch x := v.(type) {
+	case map[string]any:
+		for k, e := range x {
+			if s, ok := e.(string); ok && s == "" && strings.Contains(strings.ToLower(k), "idemp") {
+				x[k] = "<present but empty>"
+				continue
+			}
+			markEmptyKeys(e)
+		}
+	case []any:
+		for _, e := range x {
+			markEmptyKeys(e)
+		}
+	}
 }
 
 func pruneAny(v any) any {
